@@ -9,6 +9,9 @@ PROGRAMS = [
     ("print('a  ')\nprint()\nprint(' b')", "a  \n\n b\n"), ("import sys\nsys.stdout.write('w')", "w"),
     ("print('a', 'b', sep='-')", "a-b\n"), ("print('bye')\nraise SystemExit", "bye\n"),
     ("import sys\nprint('x', end='')\nsys.exit(0)", "x"), ("print('e')\n1/0", "e\n"), ("print('x\\n\\n')", "x\n\n\n"), ("print('  ')", "  \n"),
+    # executions ended by an exception that is not the sandbox's to swallow: what was printed before still counts
+    ("print('k')\nraise KeyboardInterrupt", "k\n"), ("print('g', end='')\nraise GeneratorExit", "g"),
+    ("class Stop(BaseException):\n    pass\nprint('s1')\nprint('s2')\nraise Stop()", "s1\ns2\n"),
 ]
 INPUT_PROGRAMS = [
     ("v = input('p')\nprint(v)", 1), ("a = input()\nb = input('q')\nprint(a + b)", 2), ("v = input('only prompt')", 1),
@@ -40,7 +43,10 @@ def run_history(ops):
         if kind == 'run':
             code, out = op[1], op[2]
             before_ctx = len(sb._context)
-            sb.run(code)
+            try:
+                sb.run(code)
+            except BaseException:
+                pass            # KeyboardInterrupt / GeneratorExit / other non-Exception classes travel on to the grader
             raw += out
             lines += lines_view(out)
             share = sb._context[-1].output if len(sb._context) > before_ctx else None
